@@ -1,43 +1,62 @@
-#!/usr/bin/env python3
-"""Regenerate MANIFEST.json from the table below (kept here so the file stays valid and consistent)."""
-import json, os
+#!/venv/bin/python
+"""Regenerate MANIFEST.json from the `manifest` dict of every check module in harness/props/
+(kept mechanical so the file stays valid and consistent).  A property without a module, or whose
+module has no CHECK.manifest, is listed under not_applicable with the reason in NOT_CLAIMED below."""
+import importlib, json, os, sys
 V = os.path.dirname(os.path.dirname(os.path.abspath(__file__)))
+sys.path.insert(0, V)
 props = [json.loads(l) for l in open(os.path.join(V, 'properties.jsonl'))]
 
-CLAIMED = {
- 'C01': dict(level='proof', design='DESIGN.md 4/C01',
-   text="Lean 4 theorems C01_step / C01_history: every trace of the flat engine model, for all configurations, histories and condition valuations, is accepted by the documented-order acceptor; the model is tied to /repo by trace equality on generated cases and the same compiled acceptor judges the implementation's traces.",
-   note="Trusted: Lean kernel (+propext, Quot.sound), hand-written model Model/Core.lean, acceptor Model/Spec/C01.lean, harness recorders; theorem hypotheses NoRaise/NoCmds/WF (raising callbacks and re-entrancy are C04/C05).",
-   technique="Lean 4 proof (induction over histories) + differential correspondence + verified trace monitor"),
- 'C05': dict(level='proof', design='DESIGN.md 4/C05',
-   text="Lean 4 theorem C05_queued_history: for every queued configuration, every script whose callbacks trigger events / remove models / raise arbitrarily, and every history, the engine model's trace follows the abstract FIFO queue (run-to-completion incl. finalize, arrival order, at most once, deferred calls return True, discard on escape, remove_model drops exactly that model's pending entries, drain returns only when empty). Proved by simulation; the same acceptor judges implementation traces; unqueued immediacy by model equality.",
-   note="Trusted: Lean kernel, Model/Core.lean (_process, remove_model) tied by trace equality, acceptor Model/Spec/C05.lean, visibility marker (first finalize callback). Hierarchical machines share Machine._process; their queue behaviour is exercised by the nested correspondence.",
-   technique="Lean 4 proof (simulation with an abstract queue) + differential correspondence + verified trace monitor"),
-}
+NOT_CLAIMED = {}     # property id -> reason (default below)
+DEFAULT_REASON = "check not built yet (work in progress; see DESIGN.md section 8 build order)"
+
+claimed = {}
+for p in props:
+    pid = p['id']
+    path = os.path.join(V, 'harness', 'props', pid.lower() + '.py')
+    if not os.path.exists(path):
+        continue
+    mod = importlib.import_module('harness.props.' + pid.lower())
+    man = getattr(mod.CHECK, 'manifest', None)
+    if man:
+        claimed[pid] = (man, mod.CHECK)
 
 checks = []
-for pid, c in CLAIMED.items():
+engines = {}
+for pid, (c, chk) in sorted(claimed.items()):
     checks.append({
         "property_id": pid,
         "quick_cmd": "./vcheck run %s --tier quick" % pid,
         "thorough_cmd": "./vcheck run %s --tier thorough" % pid,
         "evidence_file": "evidence/%s.json" % pid,
         "replay_cmd_template": "./vcheck replay %s {path}" % pid,
-        "engine": "lean-model+harness",
+        "engine": c.get('engine', "lean-model+harness"),
         "level_claimed": {"category": c['level'], "text": c['text'], "design_ref": c['design']},
         "level_note": c['note'],
         "technique": c['technique'],
     })
-na = [{"property_id": p["id"], "reason": "check not built yet in this session (work in progress; see DESIGN.md section 8 build order)"}
-      for p in props if p["id"] not in CLAIMED]
+    for e in c.get('engines', ()):
+        engines.setdefault(e, []).append(pid)
+na = [{"property_id": p["id"], "reason": NOT_CLAIMED.get(p["id"], DEFAULT_REASON)}
+      for p in props if p["id"] not in claimed]
+ENGINE_TEXT = {
+    'thread-controller': ('harness/threads.py', 'deterministic thread scheduler around the real LockedMachine classes'),
+    'async-controller': ('harness/asyncctl.py', 'controlled release of suspended callbacks on the real async classes'),
+    'virtual-clock': ('harness/vclock.py', 'virtual Timer / event-loop clock'),
+    'table-translator': ('harness/extract_tables.py', 'regenerates lean/Generated/Tables.lean from the live classes on every run'),
+}
+eng = [{"name": "lean-model", "path": "lean/", "serves_properties": sorted(claimed), "kind_free_text": "Lean 4 executable model + theorems + compiled line-protocol driver with verified monitors"},
+       {"name": "harness", "path": "harness/", "serves_properties": sorted(claimed), "kind_free_text": "Python differential harness driving the real classes in /repo"}]
+for e, pids in sorted(engines.items()):
+    eng.append({"name": e, "path": ENGINE_TEXT[e][0], "serves_properties": sorted(pids), "kind_free_text": ENGINE_TEXT[e][1]})
+hooks_commits = []
 m = {"version": 1, "setup_cmd": "./vcheck setup",
      "hooks": {"guard": "TRANSITIONS_VERIF",
                "enable": "no source hooks: recorders enter through public callback arguments; the harness sets TRANSITIONS_VERIF=1 (unused by the source)",
                "baseline_off_cmd": "cd /repo && /venv/bin/python -m pytest -ra -q -p no:cacheprovider --timeout=900 --continue-on-collection-errors",
-               "source_commits": [], "add_only": True},
-     "engines": [{"name": "lean-model", "path": "lean/", "serves_properties": sorted(CLAIMED), "kind_free_text": "Lean 4 executable model + theorems + compiled line-protocol driver with verified monitors"},
-                 {"name": "harness", "path": "harness/", "serves_properties": sorted(CLAIMED), "kind_free_text": "Python differential harness driving the real classes in /repo"}],
+               "source_commits": hooks_commits, "add_only": True},
+     "engines": eng,
      "checks": checks, "not_applicable": na,
      "notes": "fix: commits in /repo are listed in known_findings.json (status fixed)"}
 json.dump(m, open(os.path.join(V, 'MANIFEST.json'), 'w'), indent=1)
-print('claimed', sorted(CLAIMED), 'not claimed', len(na))
+print('claimed', sorted(claimed), 'not claimed', len(na))
